@@ -45,11 +45,15 @@ def cases(tier, rng):
     for j in range(8 if tier == 'quick' else 200):
         yield {'k': 'multi', 'j': j}
 
-def network(K):
+def network(K, order=None):
+    """order: the sequence in which the 16 rounds' tables are generated (a free choice of the caller)"""
     from crysp.bits import Bits
     from crysp.wb import table_rKT, table_M1, table_M2, table_M3, WhiteDES
     bK = Bits(K, 64)
-    KT = [table_rKT(r, bK)[1] for r in range(16)]
+    tabs = {}
+    for r in (order if order is not None else range(16)):
+        tabs[r] = table_rKT(r, bK)[1]
+    KT = [tabs[r] for r in range(16)]
     M1, M2, M3 = table_M1(), table_M2()[0], table_M3()
     return KT, M1, M2, M3, WhiteDES(KT, M1, M2, M3)
 
@@ -76,8 +80,10 @@ def run(case, ctx, rng):
         else: K = pattern(rng, 8, kc)
         ctx.cls((kc, case.get('hex', ''), case.get('bit', ''), case.get('j', 0) % 7))
         det = dict(K=K)
+        order = [None, list(range(15, -1, -1)), list(range(0, 16, 2)) + list(range(1, 16, 2)), rng.sample(range(16), 16), [0, 5, 10, 15, 1, 6, 11, 2, 7, 12, 3, 8, 13, 4, 9, 14]][case.get('j', case.get('bit', 0)) % 5]
+        det['round_generation_order'] = order
         before = call(lambda: (list(map(int, table_M1())), list(map(int, table_M2()[0])), list(map(int, table_M3()))))
-        net = call(network, K)
+        net = call(network, K, order)
         if is_exc(net):
             ctx.eq('wb==FIPS46-3', net, 'a table network', **det); return
         KT, M1, M2, M3, W = net
